@@ -292,15 +292,17 @@ def build(chk):
         def h(P):
             x1 = P.real('x1')
             cons, rems = [], []
+            desc_ids = (na + nr >= 2) and P.choose(2) == 1     # constraint ids ascending or descending along the lists (messages are not sorted by id)
             for i in range(na + nr):
                 eq = EQ if P.choose(2) == 0 else LE
                 fn = const(P, f'v{i}') if i % 2 == 0 else lin1(P, f'g{i}', [1])
-                c = Con(10 + 3 * i, eq, fn, name=f'c{i}' if i % 2 else None, subscripts=[i, 7] if i == 1 else [],
+                c = Con(10 + 3 * (na + nr - 1 - i if desc_ids else i), eq, fn, name=f'c{i}' if i % 2 else None, subscripts=[i, 7] if i == 1 else [],
                         params=[('k', f'p{i}')] if i == 0 else [], desc='d' if i == 2 else None)
                 if i < na:
                     cons.append(c)
                 else:
-                    rems.append(Rem(c, reason=f'reason{i}', params=[('r', str(i))] if i == na else []))
+                    # the first removed constraint may carry an empty reason string (legal; it is still a removed constraint)
+                    rems.append(Rem(c, reason='' if (i == na and P.choose(2) == 1) else f'reason{i}', params=[('r', str(i))] if i == na else []))
             spec = Inst(sense=MAXIMIZE if P.choose(2) else MINIMIZE, objective=lin1(P, 'o', [1]), vars=[Var(1, KIND['continuous'])],
                         cons=cons, removed=rems)
             run(P, spec, [(1, x1)])
